@@ -40,7 +40,7 @@ AGG = {
                      "with/without EXPECTFAIL, arguments equal to the name or containing a keyword, sections nested in "
                      "test functions; projection compared: function directives carrying a CMakeTest/CTest warning"),
 }
-AGG["C08"] = dict(invs=["C08_DocStemming", "C08_OffRemoves"], judge=lambda b: not b["dimpl"], flags="Flags",
+AGG["C08"] = dict(invs=["C08_DocStemming", "C08_OffRemoves"], judge=lambda b: True, flags="Flags",
                   quick=[("MC_C08a", 5, 2), ("MC_C08b", 4, 2)], thorough=[("MC_C08a", 6, 3), ("MC_C08b", 5, 2)],
                   sim=[("MC_C08a", 12, 3), ("MC_C08b", 10, 3)],
                   rule="TLC enumerates programs over classes/attributes/members/functions (a) and macros/constructors/"
@@ -230,6 +230,7 @@ CONSTANT Spellings <- MCSpellings
 CONSTANT Modes <- MCModes
 CONSTANT ModDocs <- MCModDocs
 CONSTANT HeaderLists <- MCHeaders
+CONSTANT Befores <- MCBefores
 INIT Init
 NEXT Next
 {invs}
@@ -246,14 +247,18 @@ def c12(run):
     if dev:
         res = lib.run_tlc("MC_C12", C12_CFG.format(dev="CurrentDev", invs="INVARIANT Emit"))
         run.add_tlc("MC_C12(Dev=Current)", res)
-    naming.replay(run, res.lines.get("BEH", []), run.seed, limit=2500 if q else None)
+    naming.replay(run, res.lines.get("BEH", []), run.seed, limit=2500 if q else 60000)
     naming.case_collision(run)
+    # settings shared between the inputs of one command line would violate C12_Names (witness that the invariant bites)
+    res0 = lib.run_tlc("MC_C12", C12_CFG.format(dev="SharedSettings", invs="INVARIANT C12_Names"), want_violation=True, coverage=False)
+    if not res0.violated:
+        raise lib.MachineryError("Naming.tla: D_SettingsSharedAcrossInputs no longer violates C12_Names")
     run.assumptions += ["module doccomments at indentation 0 (re-indentation belongs to C04)",
                         "upper-case .CMAKE extensions are not judged for extension dropping"]
     return ("TLC enumerates run descriptors (file at depth 1-3 incl. dotted/dashed/upper-case names x separator x prefix "
             "source absent/-p/config x spelling of the input path x directory/single-file mode x @module doccomment "
             "absent/unnamed/named with/without body x next command documented or not x extension options x header "
-            "lists), checks C12_Names/StartsWithPrefixSep/ExtDropped/Injective on the specification, and replays "
+            "lists x another directory / lone file given earlier on the same command line), checks C12_Names/StartsWithPrefixSep/ExtDropped/Injective on the specification, and replays "
             "them through the real cminx.main in a sandbox; compared: title with over/underline, the module "
             "directive (position, count, name, content) and the first entry's doc text")
 
@@ -337,6 +342,15 @@ def c19(run):
     run.add_tlc("MC_Runs(C19_Argv assumption + main loop)", res)
     cases = res.lines["GEN"][0]
     runsh.replay_c19(run, cases)
+    # over time (GenRst.tla): edits of sources / settings file and deleted pages between repeated calls
+    q = run.tier == "quick"
+    gcfg = "CONSTANT Dev <- {dev}\nCONSTANT MaxSteps = {n}\nCONSTANT Blind <- {blind}\nINIT Init\nNEXT Next\nINVARIANT C19_TreeIsCurrent\nINVARIANT Emit\n"
+    res2 = lib.run_tlc("MC_GenRst", gcfg.format(dev="NoDev", n=3 if q else 5, blind="NoBlind"))
+    run.add_tlc("MC_GenRst(steps<=%d)" % (3 if q else 5), res2)
+    runsh.replay_genrst(run, res2.lines.get("BEH", []))
+    res0 = lib.run_tlc("MC_GenRst", gcfg.format(dev="Stamp", n=3, blind="BlindUpperSettings"), want_violation=True, coverage=False)
+    if not res0.violated:
+        raise lib.MachineryError("GenRst.tla: a wrapper that skips the run on an unchanged fingerprint no longer violates C19_TreeIsCurrent")
     run.assumptions += ["arguments containing ';' (CMake list splitting) are excluded",
                         "CMake 3.25 script mode (cmake -P) stands for the configure step"]
     return ("TLC checks C19_Argv (the argument vector cminx_gen_rst builds reads back as input, -o output, the extra "
